@@ -152,3 +152,51 @@ class ReplayCase:
 
     def brief(self):
         return {"type": self.type, "hex": self.data.hex(), "command_code": self.cc, "enc": self.enc}
+
+
+def fuzz_campaign(ctx, oracle, runs, max_len=512):
+    """Thorough tiers: one atheris/libFuzzer campaign per shard with the property's oracle inside the target.
+
+    Even shards start from an empty corpus, odd shards from repository packets.  libFuzzer campaigns are only approximately
+    reproducible; the saved violation (signature + decoded arguments) is the reproducible unit and becomes the replay file."""
+    import json
+    import os
+    import shutil
+    import subprocess
+    import sys
+    import tempfile
+
+    from ..runner import VERIF, derive_seed, unjson
+
+    out = tempfile.mkdtemp(prefix=f"fuzz-{oracle}-{ctx.shard}-")
+    try:
+        cmd = [sys.executable, "-m", "tv.fuzz_target", "--oracle", oracle, "--out", out]
+        if ctx.shard % 2:
+            cmd.append("--seeded")
+        cmd += [f"-runs={runs}", f"-seed={derive_seed(ctx.seed, oracle, ctx.shard, 'fuzz') % (2**31 - 1) + 1}", f"-max_len={max_len}", "-print_final_stats=0", "-verbosity=0"]
+        env = dict(os.environ, PYTHONHASHSEED="0")
+        p = subprocess.run(cmd, cwd=VERIF, env=env, capture_output=True, text=True)
+        stats = {}
+        if os.path.exists(os.path.join(out, "stats.json")):
+            with open(os.path.join(out, "stats.json")) as f:
+                stats = json.load(f)
+        if "No module named 'atheris'" in p.stderr or "cannot import name" in p.stderr and "atheris" in p.stderr:
+            ctx.count("fuzz:atheris-unavailable")
+            return
+        ctx.count("fuzz:campaigns")
+        ctx.count("fuzz:executions", stats.get("evaluations", 0))
+        ctx.count("fuzz:nontrivial-executions", stats.get("nontrivial", 0))
+        ctx.evaluations += stats.get("evaluations", 0)
+        for k, v in stats.get("known_hits", {}).items():
+            ctx.known_hits[k] = ctx.known_hits.get(k, 0) + v
+        vpath = os.path.join(out, "violation.json")
+        if os.path.exists(vpath):
+            with open(vpath) as f:
+                v = json.load(f)
+            ctx.problem(v["signature"], "[found by the libFuzzer campaign] " + v["message"], unjson(v["payload"]))
+        elif p.returncode != 0:
+            from ..runner import HarnessError
+
+            raise HarnessError(f"fuzz campaign failed without a violation file (exit {p.returncode}): {p.stderr[-1500:]}")
+    finally:
+        shutil.rmtree(out, ignore_errors=True)
